@@ -5,6 +5,14 @@
 //! do, extended to operations whose source is a LIST of arrays — and, for a share of the small cases, on `i8`, `bool`, `String`,
 //! `f32` (-0.0).  `append` and the six splitting methods have an `impl … for Result<Array<T>, ArrayError>`: they are called on
 //! BOTH receivers every time.  The i64 call is repeated (same call twice).  Any divergence fails the case.
+//!
+//! Robustness streams, part 2: `seq call / call / …` lines run several calls back to back on the executing thread (hidden state:
+//! shapes that collide under weak hashes, (axis length, part count) pairs that collide under 8-/16-bit packing, sums, products and
+//! polynomial hashes, a long axis after its residue modulo 65 536, a refused call followed by a valid one, A–B–A); `n call…` lines
+//! are arrays on which the quadratic list model is too slow (16 384 … 140 000 elements, an axis above 65 536, more than 64 parts)
+//! judged by the harness-native block-placement reference `oracle`, which is compared with the full model answer on EVERY other
+//! case of the run (`oracle_report` lines); `exec` additionally re-runs the previous case after a share of the cases (implicit
+//! A–B–A).  `append_self` passes the receiver itself as the `values` argument (aliasing).
 use arrharness::*;
 use std::cell::RefCell;
 
@@ -398,24 +406,138 @@ fn gen(tier: &str, seed: u64, out: &mut dyn FnMut(String)) {
 }
 
 
+// ---------------------------------------------------------------- harness-native reference (block placement by coordinates)
+
+use std::sync::atomic::{AtomicUsize, Ordering};
+static ORACLE_CHECKED: AtomicUsize = AtomicUsize::new(0);
+static ORACLE_SILENT: AtomicUsize = AtomicUsize::new(0);
+static ORACLE_ONLY: AtomicUsize = AtomicUsize::new(0);
+static ABA_RERUNS: AtomicUsize = AtomicUsize::new(0);
+static SEQ_CALLS: AtomicUsize = AtomicUsize::new(0);
+
+type Val = (Vec<usize>, Vec<i64>);
+enum Ans { Arr(Val), List(Vec<Val>) }
+
+/// every input occupies, unchanged, the block of positions following the previous input along `ax`; `None` = refused
+fn concat_ref(items: &[Val], ax: usize) -> Option<Val> {
+    let first = &items.first()?.0; let nd = first.len();
+    if ax >= nd { return None; }
+    for (s, _) in items { if s.len() != nd || (0..nd).any(|k| k != ax && s[k] != first[k]) { return None; } }
+    let outer: usize = first[..ax].iter().product(); let inner: usize = first[ax + 1..].iter().product();
+    let mut out = Vec::with_capacity(items.iter().map(|(_, e)| e.len()).sum());
+    for o in 0..outer { for (s, e) in items { let w = s[ax] * inner; out.extend_from_slice(&e[o * w..(o + 1) * w]); } }
+    let mut shape = first.clone(); shape[ax] = items.iter().map(|(s, _)| s[ax]).sum();
+    Some((shape, out))
+}
+/// the same along a newly inserted axis
+fn stack_ref(items: &[Val], ax: usize) -> Option<Val> {
+    let first = &items.first()?.0;
+    if ax > first.len() || items.iter().any(|(s, _)| s != first) { return None; }
+    let with_unit: Vec<Val> = items.iter().map(|(s, e)| { let mut t = s.clone(); t.insert(ax, 1); (t, e.clone()) }).collect();
+    concat_ref(&with_unit, ax)
+}
+/// consecutive blocks along `ax` with the given lengths
+fn cut_ref(shape: &[usize], e: &[i64], ax: usize, sizes: &[usize]) -> Vec<Val> {
+    let outer: usize = shape[..ax].iter().product(); let inner: usize = shape[ax + 1..].iter().product(); let d = shape[ax];
+    let mut from = 0; let mut out = vec![];
+    for &len in sizes {
+        let mut piece = Vec::with_capacity(outer * len * inner);
+        for o in 0..outer { piece.extend_from_slice(&e[(o * d + from) * inner..(o * d + from + len) * inner]); }
+        let mut s = shape.to_vec(); s[ax] = len; out.push((s, piece)); from += len;
+    }
+    out
+}
+/// sizes that differ by at most one, larger first
+fn sections(d: usize, parts: usize) -> Vec<usize> { (0..parts).map(|k| d / parts + if k < d % parts { 1 } else { 0 }).collect() }
+
+/// The statement of C11 as direct block placement.  `None` = no opinion (zero-size arrays, mixed ranks for the conveniences, a new
+/// LAST axis for stack, more parts than positions, …: judged by the model only); `Some(None)` = the call must be refused.
+fn oracle(op: &str, args: &[&str]) -> Option<Option<Ans>> {
+    let src = *args.first()?;
+    if src == "-" { return None; }
+    let items: Vec<Val> = src.split(';').map(parse_arr_raw).collect();
+    if items.iter().any(|(s, e)| e.is_empty() || s.is_empty() || s.iter().product::<usize>() != e.len()) { return None; }
+    let ax_opt = |s: &str| -> Option<usize> { parse_opt(s) };
+    let arr = |v: Option<Val>| v.map(Ans::Arr);
+    let same_rank = items.iter().all(|(s, _)| s.len() == items[0].0.len());
+    let (shape, e) = items[0].clone(); let nd = shape.len();
+    let split_ref = |parts: usize, ax: Option<usize>, exact: bool| -> Option<Option<Ans>> {
+        if parts == 0 { return Some(None); }
+        let ax = match ax { Some(ax) if ax >= nd => return Some(None), Some(ax) => ax, None => 0 };
+        if exact && shape[ax] % parts != 0 { return Some(None); }
+        if parts > shape[ax] { return None; }            // empty pieces: model only
+        Some(Some(Ans::List(cut_ref(&shape, &e, ax, &sections(shape[ax], parts)))))
+    };
+    Some(match op {
+        "append" | "append_self" => { let v = if op == "append_self" { items[0].clone() } else { let v = parse_arr_raw(args[1]); if v.1.is_empty() || v.0.is_empty() { return None; } v };
+            match ax_opt(args[if op == "append_self" { 1 } else { 2 }]) {
+                None => { let mut out = e.clone(); out.extend_from_slice(&v.1); Some(Ans::Arr((vec![out.len()], out))) }
+                Some(ax) => arr(concat_ref(&[items[0].clone(), v], ax)) } }
+        "concatenate" => match ax_opt(args[1]) {
+            None => { if items.len() < 2 { return None; } let out: Vec<i64> = items.iter().flat_map(|(_, e)| e.iter().copied()).collect(); Some(Ans::Arr((vec![out.len()], out))) }
+            Some(ax) => { if !same_rank { return None; } arr(concat_ref(&items, ax)) } },
+        "stack" => { let ax = ax_opt(args[1]).unwrap_or(0); if ax >= nd { return None; } arr(stack_ref(&items, ax)) }
+        "vstack" | "row_stack" => { if !same_rank { return None; } if nd == 1 { arr(stack_ref(&items, 0)) } else { arr(concat_ref(&items, 0)) } }
+        "hstack" => { if !same_rank { return None; } arr(concat_ref(&items, if nd == 1 { 0 } else { 1 })) }
+        "dstack" => { if !same_rank { return None; }
+            let up: Vec<Val> = items.iter().map(|(s, e)| (match s.len() { 1 => vec![1, s[0], 1], 2 => vec![s[0], s[1], 1], _ => s.clone() }, e.clone())).collect();
+            arr(concat_ref(&up, 2)) }
+        "column_stack" => { if items.iter().any(|(s, _)| s.len() > 2) { return Some(None); }
+            let up: Vec<Val> = items.iter().map(|(s, e)| (if s.len() == 1 { vec![s[0], 1] } else { s.clone() }, e.clone())).collect();
+            arr(concat_ref(&up, 1)) }
+        "array_split" => return split_ref(args[1].parse().ok()?, ax_opt(args[2]), false),
+        "split" => { let ax = ax_opt(args[2]); if let Some(ax) = ax { if ax >= nd { return Some(None); } } return split_ref(args[1].parse().ok()?, ax, true) }
+        "split_axis" => { let ax: usize = args[1].parse().ok()?; if ax >= nd { return Some(None); } if nd == 1 { Some(Ans::List(vec![(shape.clone(), e.clone())])) } else { return split_ref(shape[ax], Some(ax), true) } }
+        "hsplit" => return split_ref(args[1].parse().ok()?, Some(if nd == 1 { 0 } else { 1 }), true),
+        "vsplit" => { if nd < 2 { return Some(None); } return split_ref(args[1].parse().ok()?, Some(0), true) }
+        "dsplit" => { if nd < 3 { return Some(None); } return split_ref(args[1].parse().ok()?, Some(2), true) }
+        // splitting is the inverse of joining: the pieces, concatenated, are the original array
+        "split_concat" => { let (p, ax): (usize, usize) = (args[1].parse().ok()?, args[2].parse().ok()?);
+            match split_ref(p, Some(ax), false)? { None => None, Some(Ans::List(ps)) => arr(concat_ref(&ps, ax)), Some(a) => Some(a) } }
+        _ => return None,
+    })
+}
+fn val_text(v: &Val) -> String { format!("{}:{}", show_list(&v.0), show_list(&v.1)) }
+fn oracle_text(o: &Option<Ans>) -> String {
+    match o { Some(Ans::Arr(v)) => format!("ok {}", val_text(v)), Some(Ans::List(l)) => format!("ok {}", l.iter().map(val_text).collect::<Vec<_>>().join(";")), None => "err".to_string() }
+}
+
+/// where two `ok shape:elements[;shape:elements…]` answers differ
+fn diff_detail(obs: &str, want: &str) -> String {
+    let parse = |t: &str| -> Option<Vec<(String, Vec<String>)>> { t.strip_prefix("ok ")?.split(';').map(|p| { let (s, e) = p.split_once(':')?; Some((s.to_string(), e.split(',').map(|x| x.to_string()).collect())) }).collect() };
+    match (parse(obs), parse(want)) {
+        (Some(o), Some(w)) => {
+            if o.len() != w.len() { return format!("{} pieces instead of {}", o.len(), w.len()); }
+            for (k, ((so, eo), (sw, ew))) in o.iter().zip(&w).enumerate() {
+                let at = if o.len() > 1 { format!("piece {k}: ") } else { String::new() };
+                if so != sw { return format!("{at}shape {so} instead of {sw}"); }
+                if eo.len() != ew.len() { return format!("{at}{} elements instead of {}", eo.len(), ew.len()); }
+                let bad: Vec<usize> = (0..eo.len()).filter(|&p| eo[p] != ew[p]).collect();
+                if let Some(&p) = bad.first() { return format!("{at}shape {so}: {} of {} positions differ, the first at flat position {p}: {} instead of {}", bad.len(), eo.len(), eo[p], ew[p]); }
+            }
+            "equal".into()
+        }
+        _ => format!("`{}` instead of `{}`", truncate(obs, 200), truncate(want, 200)),
+    }
+}
+
 // ---------------------------------------------------------------- executor
 
-fn elems_of(s: &str) -> usize { if s == "-" { 0 } else { s.split(';').map(|a| parse_arr_raw(a).0.iter().product::<usize>()).sum() } }
+fn shape_elems(a: &str) -> usize { let body = a.strip_prefix('i').unwrap_or(a); let sh = body.split(|c| c == '+' || c == ':').next().unwrap_or("-"); parse_usize_list(sh).iter().product() }
+fn elems_of(s: &str) -> usize { if s == "-" { 0 } else { s.split(';').map(shape_elems).sum() } }
 
-fn exec(op: &str, args: &[&str], expected: &str) -> Option<Verdict> {
+/// the real call: i64 / u8 / f64 (+ i8 / bool / String / f32 when `more`), both receivers where they exist, the i64 call twice
+fn run_call(op: &str, args: &[&str], more: bool) -> Option<String> {
     let ax_opt = |s: &str| -> Option<usize> { parse_opt(s) };
     let src = *args.first()?;
-    // the four further element types: at most 600 input elements, one case line in three
-    let more = { let n = elems_of(src) + if op == "append" { elems_of(args[1]) } else { 0 }; n <= 600 && args.iter().map(|a| a.len()).sum::<usize>() % 3 == 0 };
-    let obs = match op {
+    Some(match op {
         "append" => { let ax = ax_opt(args[2]);
             sweep_arr!(more, |T| { let (a, v) = (arr_of::<T>(src), arr_of::<T>(args[1])); rx(|| a.append(&v, ax), || Ok(a.clone()).append(&v, ax)) }) }
+        // aliasing: the receiver itself is the `values` argument
+        "append_self" => { let ax = ax_opt(args[1]);
+            sweep_arr!(more, |T| { let a = arr_of::<T>(src); rx(|| a.append(&a, ax), || Ok(a.clone()).append(&a, ax)) }) }
         "concatenate" => { let ax = ax_opt(args[1]); sweep_arr!(more, |T| { let l = list_of::<T>(src); rep(|| Array::concatenate(l.clone(), ax)) }) }
-        "stack" => { let ax = ax_opt(args[1]);
-            // a new LAST axis (axis == rank) is refused by the code; the statement does not say which positions must be accepted: open
-            let o = sweep_arr!(more, |T| { let l = list_of::<T>(src); rep(|| Array::stack(l.clone(), ax)) });
-            if let (Some(ax), Some(first)) = (ax, parse_arr_list_i64(src).first()) { if ax == first.ndim().unwrap() && o != expected { return Some(Verdict::Open(o)); } }
-            o }
+        "stack" => { let ax = ax_opt(args[1]); sweep_arr!(more, |T| { let l = list_of::<T>(src); rep(|| Array::stack(l.clone(), ax)) }) }
         "vstack" => sweep_arr!(more, |T| { let l = list_of::<T>(src); rep(|| Array::vstack(l.clone())) }),
         "row_stack" => sweep_arr!(more, |T| { let l = list_of::<T>(src); rep(|| Array::row_stack(l.clone())) }),
         "hstack" => sweep_arr!(more, |T| { let l = list_of::<T>(src); rep(|| Array::hstack(l.clone())) }),
@@ -434,12 +556,124 @@ fn exec(op: &str, args: &[&str], expected: &str) -> Option<Verdict> {
         "split_concat" => { let p: usize = args[1].parse().ok()?; let ax: usize = args[2].parse().ok()?;
             sweep_arr!(more, |T| { let a = arr_of::<T>(src); rep(|| match Ok(a.clone()).array_split(p, Some(ax)) { Ok(ps) => Array::concatenate(ps, Some(ax)), Err(e) => Err(e) }) }) }
         _ => return None,
-    };
+    })
+}
+
+/// only the plain call on `Array<i64>` (the A–B–A re-run)
+fn plain_i64(op: &str, args: &[&str]) -> Option<String> {
+    let ax_opt = |s: &str| -> Option<usize> { parse_opt(s) };
+    let src = *args.first()?;
+    Some(match op {
+        "append" => { let (a, v) = (parse_arr_i64(src), parse_arr_i64(args[1])); let ax = ax_opt(args[2]); guarded(|| res_arr(&a.append(&v, ax))) }
+        "concatenate" => { let l = parse_arr_list_i64(src); let ax = ax_opt(args[1]); guarded(|| res_arr(&Array::concatenate(l, ax))) }
+        "stack" => { let l = parse_arr_list_i64(src); let ax = ax_opt(args[1]); guarded(|| res_arr(&Array::stack(l, ax))) }
+        "vstack" => { let l = parse_arr_list_i64(src); guarded(|| res_arr(&Array::vstack(l))) }
+        "hstack" => { let l = parse_arr_list_i64(src); guarded(|| res_arr(&Array::hstack(l))) }
+        "dstack" => { let l = parse_arr_list_i64(src); guarded(|| res_arr(&Array::dstack(l))) }
+        "array_split" => { let a = parse_arr_i64(src); let p: usize = args[1].parse().ok()?; let ax = ax_opt(args[2]); guarded(|| res_arr_list(&a.array_split(p, ax))) }
+        "split" => { let a = parse_arr_i64(src); let p: usize = args[1].parse().ok()?; let ax = ax_opt(args[2]); guarded(|| res_arr_list(&ArraySplit::split(&a, p, ax))) }
+        "split_axis" => { let a = parse_arr_i64(src); let ax: usize = args[1].parse().ok()?; guarded(|| res_arr_list(&a.split_axis(ax))) }
+        _ => return None,
+    })
+}
+
+/// one ordinary call line against the model's answer; on the way the native reference is compared with the model
+fn exec_call(op: &str, args: &[&str], expected: &str) -> Option<Verdict> {
+    let src = *args.first()?;
+    // the four further element types: at most 600 input elements, one case line in three
+    let more = { let n = elems_of(src) + if op == "append" { elems_of(args[1]) } else { 0 }; n <= 600 && args.iter().map(|a| a.len()).sum::<usize>() % 3 == 0 };
+    let obs = run_call(op, args, more)?;
+    match oracle(op, args) {
+        None => { ORACLE_SILENT.fetch_add(1, Ordering::Relaxed); }
+        Some(o) => {
+            let ot = oracle_text(&o);
+            let agree = if o.is_none() { class_of(expected) == "err" } else { ot == expected };
+            if !agree { return Some(Verdict::Mismatch { observed: obs, detail: format!("ORACLE-VS-MODEL the harness-native reference gives `{}`, the model `{}` ({}) (harness defect: the reference is not usable)", truncate(&ot, 300), truncate(expected, 300), diff_detail(&ot, expected)) }); }
+            ORACLE_CHECKED.fetch_add(1, Ordering::Relaxed);
+        }
+    }
+    if op == "stack" {
+        // a new LAST axis (axis == rank) is refused by the code; the statement does not say which positions must be accepted: open
+        let ax: Option<usize> = parse_opt(args[1]);
+        if let (Some(ax), Some(first)) = (ax, src.split(';').next()) { if src != "-" && ax == parse_arr_raw(first).0.len() && obs != expected { return Some(Verdict::Open(obs)); } }
+    }
     Some(compare_default(obs, expected))
+}
+
+/// `n call…`: the driver answers `ok native`, the crate is judged by the native reference
+fn exec_native(args: &[&str], expected: &str) -> Option<Verdict> {
+    if expected != "ok native" { return Some(compare_default("harness: an `n` line expects the driver to answer `ok native`".into(), expected)); }
+    let (op, rest) = (*args.first()?, &args[1..]);
+    let want = oracle_text(&oracle(op, rest)?);      // `n` lines are only generated where the reference has an opinion
+    ORACLE_ONLY.fetch_add(1, Ordering::Relaxed);
+    let obs = run_call(op, rest, false)?;
+    if obs == want || (class_of(&obs) == "err" && want == "err") { return Some(Verdict::Match(format!("ok native ({} bytes as the harness-native reference)", obs.len()))); }
+    Some(Verdict::Mismatch { detail: format!("differs from the harness-native block-placement reference: {}; reference `{}`", diff_detail(&obs, &want), truncate(&want, 300)), observed: truncate(&obs, 1500) })
+}
+
+thread_local! { static PREV: RefCell<Option<(String, Vec<String>, String)>> = const { RefCell::new(None) }; }
+
+fn exec(op: &str, args: &[&str], expected: &str) -> Option<Verdict> {
+    // VERIF_SLOW=<seconds>: name the case lines whose execution takes longer (tuning aid, no influence on the verdicts)
+    let t0 = std::time::Instant::now();
+    let v = exec_line(op, args, expected);
+    if let Some(lim) = std::env::var("VERIF_SLOW").ok().and_then(|s| s.parse::<f64>().ok()) { let dt = t0.elapsed().as_secs_f64(); if dt > lim { eprintln!("slow {dt:.2}s {op} {}", truncate(&args.join(" "), 150)); } }
+    v
+}
+
+fn exec_line(op: &str, args: &[&str], expected: &str) -> Option<Verdict> {
+    match op {
+        "oracle_report" => {
+            let text = format!("ok report: so far the harness-native reference agreed with the full model answer on {} cases (no opinion on {}), {} calls judged by the reference only, {} calls inside seq lines, {} implicit A-B-A re-runs",
+                ORACLE_CHECKED.load(Ordering::Relaxed), ORACLE_SILENT.load(Ordering::Relaxed), ORACLE_ONLY.load(Ordering::Relaxed), SEQ_CALLS.load(Ordering::Relaxed), ABA_RERUNS.load(Ordering::Relaxed));
+            if expected != "ok report" { return Some(compare_default(text, expected)); }
+            if args.first() == Some(&"final") && ORACLE_ONLY.load(Ordering::Relaxed) > 0 && ORACLE_CHECKED.load(Ordering::Relaxed) < 1000 {
+                return Some(Verdict::Mismatch { observed: text, detail: "the native reference was relied upon without having been compared with the model on at least 1000 cases of this run".into() });
+            }
+            Some(Verdict::Match(text))
+        }
+        "n" => exec_native(args, expected),
+        "seq" => {
+            let calls: Vec<&[&str]> = args.split(|t| *t == "/").collect();
+            let exps: Vec<&str> = expected.split(" / ").collect();
+            if calls.len() != exps.len() { return Some(compare_default(format!("harness: {} calls but {} model answers", calls.len(), exps.len()), expected)); }
+            let mut texts = vec![]; let mut bad: Option<String> = None;
+            for (q, (c, e)) in calls.iter().zip(&exps).enumerate() {
+                SEQ_CALLS.fetch_add(1, Ordering::Relaxed);
+                let v = if c.first() == Some(&"n") { exec_native(&c[1..], e)? } else { exec_call(c.first()?, &c[1..], e)? };
+                match v {
+                    Verdict::Match(o) | Verdict::Open(o) => texts.push(truncate(&o, 400)),
+                    Verdict::Mismatch { observed, detail } => { if bad.is_none() { bad = Some(format!("call {} of the sequence (`{}`): {}", q + 1, truncate(&c.join(" "), 300), detail)); } texts.push(truncate(&observed, 400)); }
+                }
+            }
+            let obs = texts.join(" / ");
+            Some(match bad { Some(d) => Verdict::Mismatch { observed: obs, detail: d }, None => Verdict::Match(obs) })
+        }
+        _ => {
+            let v = exec_call(op, args, expected)?;
+            // implicit A–B–A: after a share of the small cases the PREVIOUS case is run again and must repeat its answer
+            let small = elems_of(args[0]) <= 600 && args.iter().map(|a| a.len()).sum::<usize>() <= 1000;
+            if small && args.iter().map(|a| a.len()).sum::<usize>() % 4 == 1 {
+                if let Some((pop, pargs, pans)) = PREV.with(|p| p.borrow().clone()) {
+                    let pa: Vec<&str> = pargs.iter().map(|s| s.as_str()).collect();
+                    if let Some(again) = plain_i64(&pop, &pa) {
+                        ABA_RERUNS.fetch_add(1, Ordering::Relaxed);
+                        if again != pans { if let Verdict::Match(o) = &v { return Some(Verdict::Mismatch { observed: o.clone(), detail: format!("A-B-A: after this call the previous case `{} {}` no longer repeats its answer: `{}` instead of `{}`", pop, pargs.join(" "), truncate(&again, 300), truncate(&pans, 300)) }); } }
+                    }
+                }
+            }
+            if small { match plain_i64(op, args) { Some(ans) => PREV.with(|p| *p.borrow_mut() = Some((op.to_string(), args.iter().map(|s| s.to_string()).collect(), ans))), None => PREV.with(|p| *p.borrow_mut() = None) } }
+            Some(v)
+        }
+    }
 }
 
 fn nontrivial(op: &str, args: &[&str]) -> bool {
     match op {
+        "oracle_report" => false,
+        "seq" => args.split(|t| *t == "/").any(|c| !c.is_empty() && nontrivial(c[0], &c[1..])),
+        "n" => args.len() >= 2 && nontrivial(args[0], &args[1..]),
+        "append_self" => true,
         "array_split" | "split" | "split_concat" => args[1] != "1" && args[1] != "0" && parse_arr_raw(args[0]).0.len() >= 2,
         "split_axis" | "hsplit" | "vsplit" | "dsplit" => parse_arr_raw(args[0]).0.len() >= 2,
         _ => args[0].contains(';'),
